@@ -172,3 +172,26 @@ def set_insert(ctx, args, st):
 def set_contains(ctx, args, st):
     s = st.deref_all(args[0])
     return ret(st, Bool(key_of(st, args[1]) in s.keys))
+
+
+@model(_m(r'entry$'))
+def map_entry(ctx, args, st):
+    r = map_ref(st, args[0])
+    return ret(st, Py('mapentry', (r, key_of(st, args[1]))))
+
+
+@model(r'^(?:std::collections::)?(?:hash_map::|btree_map::)?Entry::<.*>::(or_insert|or_default|or_insert_with)(?:::<.*>)?$')
+def entry_or_insert(ctx, args, st):
+    r, k = args[0].data
+    mv = st.deref(r)
+    i = mv.index(k)
+    if i is None:
+        op = ctx.callee.rsplit('::', 1)[-1]
+        if op.startswith('or_insert_with'):
+            raise Unsupported('Entry::or_insert_with')
+        if op.startswith('or_default'):
+            raise Unsupported('Entry::or_default')
+        mv, _ = map_insert(mv, k, args[1])
+        st.store(r, mv)
+        i = mv.index(k)
+    return ret(st, Ref(r.alloc, r.path + (i,), True))
